@@ -97,14 +97,14 @@ M = [
  ('guess-column-shift', 'sampling_method.py', "                    kk = k if k>=0 else value.shape[1]//c-1\n", "                    kk = max(k-1,0) if k>=0 else value.shape[1]//c-1\n", ['C10']),
  ('guess-second-pass-missing', 'sampling_method.py', "        self.set_initial(stage, opti, initial_guesses) # Redo this: ocp.t is correct only now\n", "", ['C10']),
  ('dc-root-guess-time', 'direct_collocation.py', "expr_integrator_root = ca.hcat([self.eval_at_integrator_root(stage, expr, k, i, j) for k in list(range(self.N)) for i in range(self.M) for j in range(self.degree) ])", "expr_integrator_root = ca.hcat([self.eval_at_integrator_root(stage, expr, k, i, 0) for k in list(range(self.N)) for i in range(self.M) for j in range(self.degree) ])", ['C10']),
- ('priority-order', 'stage.py', "            if priority:\n                self._initial.move_to_end(var, last=False)", "            if False:\n                self._initial.move_to_end(var, last=False)", []),
+ ('priority-order', 'stage.py', "            self._initial.move_to_end(var, last=not priority)", "            self._initial.move_to_end(var, last=True)", []),
  ('setinitial-after-ignored', 'stage.py', "        if self.master is not None and self.master.is_transcribed:\n            if hasattr(self._method, 'set_initial_all'):", "        if self.master is not None and self.master.is_transcribed and False:\n            if hasattr(self._method, 'set_initial_all'):", ['C10']),
  ('free-T-guess-shift', 'direct_method.py', "                stage.set_initial(stage._T, init,priority=True)\n                return stage._T", "                stage.set_initial(stage._T, init*1.5,priority=True)\n                return stage._T", ['C10']),
  # --- C15
  ('inf-tscale-global', 'sampling_method.py', "        tscale = (self.control_grid[k + 1] - self.control_grid[k])/self.M\n", "        tscale = self.T / self.N / self.M\n", ['C15']),
  # ('inf-bernstein-matrix': entry [2][2] 1/6 -> 1/8) removed: equivalent for step polynomials of degree <= 2 (a convex quadratic attains its maximum at an end point, a concave one is over-estimated), which is all the C15 models produce; z3 answers `unknown` on it (exit 3)
  ('inf-coeff-index', 'sampling_method.py', "        coeff = stage._method.poly_coeff[k * self.M + l]\n", "        coeff = stage._method.poly_coeff[k * self.M]\n", ['C15']),
- ('inf-last-interval-skipped', 'multiple_shooting.py', "                for c, meta, _ in stage._constraints[\"inf\"]:\n                    self.add_inf_constraints(stage, opti, c, k, l, meta)", "                for c, meta, _ in stage._constraints[\"inf\"]:\n                    if k<self.N-1 or self.N==1: self.add_inf_constraints(stage, opti, c, k, l, meta)", ['C15']),
+ ('inf-last-interval-skipped', 'multiple_shooting.py', "                for c, meta, args in stage._constraints[\"inf\"]:\n                    self.add_inf_constraints(stage, opti, c, k, l, meta, scale=args[\"scale\"])", "                for c, meta, args in stage._constraints[\"inf\"]:\n                    if k<self.N-1 or self.N==1: self.add_inf_constraints(stage, opti, c, k, l, meta, scale=args[\"scale\"])", ['C15']),
  # --- C17
  ('bspline-derivative-scale', 'splines/micro_spline.py', "  scale = d/delta_xi\n", "  scale = (d+1)/delta_xi\n", ['C17']),
  ('basis-recursion', 'splines/micro_spline.py', "        dbg_ref2 = (kid - xr) * norm\n        basis = MX(knots.numel() - e - 1, N)", "        dbg_ref2 = (kid - xr) * norm * (1 if e<3 else 0.99)\n        basis = MX(knots.numel() - e - 1, N)", ['C17']),
@@ -123,7 +123,7 @@ M = [
  ('tofunction-args-value', 'sampling_method.py', "        if not local:\n            return opti.to_function(name, args_v, results, *margs)", "        if not local:\n            return opti.to_function(name, args_v, [results[0]*2]+list(results[1:]), *margs)", ['C19']),
  # --- mechanisms repaired in batch 7 (one mutant each: the repair is load-bearing and its check instance notices its absence)
  ('dc-last-control-equality', 'direct_collocation.py', "if k==-1 and is_same_expr(target, self.eval_at_control(stage, var, self.N-1)):", "if k==-1 and ca.is_equal(target, self.eval_at_control(stage, var, self.N-1)):", ['C10']),
- ('spline-product-first-column', 'splines/spline.py', "rows = lambda c, idx: c[idx, :] if isinstance(c, (cas.MX, cas.SX, cas.DM)) else c[idx]", "rows = lambda c, idx: c[idx]", ['C15']),
+ # ('spline-product-first-column', ...) removed: since repair a487443 rejects every non-scalar grid='inf' constraint, no accepted body reaches the matrix-coefficient branch of BSpline.__mul__ any more (equivalent mutant)
  ('substage-query-in-place', 'stage.py', "            self.master._transcribed # transcribes a copy: the declared specification stays as it is", "            self.master._transcribe()", ['C13']),
  ('horizon-parameter-local-guesses', 'stage.py', "               (localized and horizon and depends_on(veccat(*horizon), veccat(*ca.symvar(MX(parameter))))):", "               False:", ['C09']),
  ('clone-drops-inf-der', 'stage.py', "        ret._inf_der = HashOrderedDict(zip(self._inf_der.keys(), renew(self._inf_der.values())))\n", "", ['C12']),
@@ -156,10 +156,13 @@ M = [
  ('inf-scale-ignored-dc', 'direct_collocation.py', "self.add_inf_constraints(stage, opti, c, k, i, meta, scale=args[\"scale\"])", "self.add_inf_constraints(stage, opti, c, k, i, meta)", ['C14']),
  ('bspline-on-free-knots-accepted', 'sampling_method.py', "            if isinstance(self.time_grid, FreeGrid) and (stage.variables['bspline'] or stage.parameters['bspline']):\n", "            if False:\n", ['C17']),
  # --- mechanisms repaired after batch 11
- ('substage-guess-refresh-own-stage-only', 'stage.py', "            for s in self.master.iter_stages(include_self=True):\n                if not hasattr(s._method, 'set_initial_all'): continue", "            for s in [self]:\n                if not hasattr(s._method, 'set_initial_all'): continue", ['C09']),
+ ('substage-guess-refresh-own-stage-only', 'stage.py', "            for s in self.master.iter_stages(include_self=True):\n                if not hasattr(s._method, 'set_initial_all'):\n", "            for s in [self]:\n                if not hasattr(s._method, 'set_initial_all'):\n", ['C09']),
  ('repeated-guess-keeps-position', 'stage.py', "            self._initial.move_to_end(var, last=not priority)\n", "            if priority: self._initial.move_to_end(var, last=False)\n", ['C10']),
  ('failed-transcription-reused', 'ocp.py', "                self._original._set_transcribed(False)\n                raise\n", "                raise\n", ['C10']),
  ('vector-inf-constraint-accepted', 'sampling_method.py', "        if not c.is_scalar():\n            raise Exception(\"A grid='inf' constraint must be scalar-valued", "        if False:\n            raise Exception(\"A grid='inf' constraint must be scalar-valued", ['C15']),
+ # --- mechanisms repaired after batch 12
+ ('parent-guess-refresh-skipped', 'stage.py', "                    if hasattr(s._method, 'set_initial') and any(isinstance(v, MX) and not v.is_constant() for v in s._initial.values()):\n", "                    if False:\n", ['C09']),
+ ('inf-on-signal-accepted', 'sampling_method.py', "        if ca.depends_on(c, vvcat(stage._signals.keys())):\n", "        if False:\n", ['C15']),
 ]
 
 def main():
